@@ -262,6 +262,8 @@ func TestC17Request(t *testing.T) {
 			DelayMs: 0, TimeoutMs: 200, Queries: rapid.IntRange(1, 2).Draw(rt, "q"), E2e: 0, ReverseDns: rapid.Bool().Draw(rt, "rdns")}
 		if rq.HTTP {
 			rq.P.DelayMs = 50
+			// a key may come twice with the same value
+			rq.P.Repeat = oneOf(rt, "repeat", []string(nil), nil, []string{"skip-private-hops"}, []string{"skip-private-hops", "reverse-dns", "max-ttl"})
 		}
 		if rq.P.Protocol == "tcp" {
 			v6 = false
